@@ -185,7 +185,9 @@ def obligations(tier, seed):
                             desc="HTTP client: an entry of the result is only ever filled with the response whose id is start + its position",
                             bounds=f"n={n}, {k} reply ids any u64", keydetail="http-positional",
                             replay=dict(scenario="c12_http_batch", vars=args, fixed={"n": n, "k": k}, region=z3.And(z3.UGE(s, 100), z3.ULE(s, 1000), *[z3.ULE((r_ - s) + 16, 32) for r_ in rids])), **common))
-    cases = [(1, 1), (2, 2), (3, 2), (2, 3), (3, 3)] if tier == "quick" else [(n, k) for n in (1, 2, 3, 4) for k in (1, 2, 3, 4, 5)]
+    # the caller passes range = min(reply ids) .. max(reply ids)+1 and the pending batch is looked up by that range: a reply can only
+    # meet a pending batch of n > 1 with at least two (distinct) ids, and one of n = 1 with ids that are all equal
+    cases = [(1, 1), (2, 2), (3, 2), (2, 3), (3, 3)] if tier == "quick" else [(n, k) for n in (1, 2, 3, 4) for k in (1, 2, 3, 4, 5) if (n == 1 or k >= 2)]
     for n, k in cases:
         ex, ctx, viol, reach_ok, reach_err, abnormal, panics, rids, s = _ws_case(core, n, k)
         name = f"ws:process_batch_response:n={n}:replies={k}"
